@@ -40,6 +40,11 @@ func (e *Exec) call(fr *Frame, st *BState, x *ssa.Call) SV {
 			iv := e.val(fr, c.Value).(*IfaceV)
 			return &Scalar{T: ufun("ext."+nm, []string{SInt, SInt}, sortOfType(resT), iv.Tag, iv.Ref), Ty: resT}
 		}
+		if it, ok := dispatchable(c.Value.Type()); ok {
+			if r, ok := e.dispatchInvoke(fr, st, x, it); ok {
+				return r
+			}
+		}
 		// ghost call counter per interface method name (calls(Name) in contracts)
 		cn := "$calls." + c.Method.Name()
 		old := intLit(0)
@@ -135,33 +140,29 @@ func (e *Exec) builtin(fr *Frame, st *BState, x *ssa.Call, name string, args []S
 			if b != nil {
 				bsrc = sel(arr, b.Base, arrSort(SInt, sort))
 			}
-			// fresh array: prefix copied
-			na := e.fresh("append.arr"+path, arrSort(SInt, sort))
+			// ni: the contents of the result's backing array. Stated uniformly for both cases (in place / fresh array)
+			// so that reading the result needs no case split: its first len(a) elements are a's, then come b's.
+			ni := e.fresh("append.arr"+path, arrSort(SInt, sort))
 			nbound++
 			j := mk(SInt, fmt.Sprintf("j!q%d", nbound))
-			e.assume(mk(SBool, "forall", mk("binder", "(("+j.Op+" Int))"), implies(and(le(intLit(0), j), lt(j, a.Len)), eq(sel(na, j, sort), sel(src, add(a.Off, j), sort)))))
-			inPlace := src
+			e.assume(mk(SBool, "forall", mk("binder", "(("+j.Op+" Int))"), implies(and(le(intLit(0), j), lt(j, a.Len)), eq(sel(ni, add(res.Off, j), sort), sel(src, add(a.Off, j), sort)))))
 			if b != nil {
 				if isConst {
 					for q := 0; q < cn; q++ {
-						v := sel(bsrc, add(b.Off, intLit(int64(q))), sort)
-						e.assume(eq(sel(na, add(a.Len, intLit(int64(q))), sort), v))
-						inPlace = sto(inPlace, add(add(a.Off, a.Len), intLit(int64(q))), v)
+						e.assume(eq(sel(ni, add(add(res.Off, a.Len), intLit(int64(q))), sort), sel(bsrc, add(b.Off, intLit(int64(q))), sort)))
 					}
 				} else {
 					nbound++
 					q := mk(SInt, fmt.Sprintf("q!q%d", nbound))
-					e.assume(mk(SBool, "forall", mk("binder", "(("+q.Op+" Int))"), implies(and(le(intLit(0), q), lt(q, n)), eq(sel(na, add(a.Len, q), sort), sel(bsrc, add(b.Off, q), sort)))))
-					ip := e.fresh("append.inplace"+path, arrSort(SInt, sort))
-					nbound++
-					p := mk(SInt, fmt.Sprintf("p!q%d", nbound))
-					lo := add(a.Off, a.Len)
-					e.assume(mk(SBool, "forall", mk("binder", "(("+p.Op+" Int))"), eq(sel(ip, p, sort),
-						ite(and(le(lo, p), lt(p, add(lo, n))), sel(bsrc, add(b.Off, sub(p, lo)), sort), sel(src, p, sort)))))
-					inPlace = ip
+					e.assume(mk(SBool, "forall", mk("binder", "(("+q.Op+" Int))"), implies(and(le(intLit(0), q), lt(q, n)), eq(sel(ni, add(add(res.Off, a.Len), q), sort), sel(bsrc, add(b.Off, q), sort)))))
 				}
 			}
-			st.heap[k] = ite(fits, sto(arr, a.Base, inPlace), sto(arr, nb, na))
+			// in place: the rest of the shared backing array keeps its contents (other slices of it see the new elements)
+			nbound++
+			p := mk(SInt, fmt.Sprintf("p!q%d", nbound))
+			lo := add(a.Off, a.Len)
+			e.assume(implies(fits, mk(SBool, "forall", mk("binder", "(("+p.Op+" Int))"), implies(or(lt(p, lo), le(add(lo, n), p)), eq(sel(ni, p, sort), sel(src, p, sort))))))
+			st.heap[k] = sto(arr, res.Base, ni)
 			return nil
 		})
 		return res
